@@ -24,7 +24,7 @@ WORKERS = {"quick": 4, "thorough": 16}
 WTESTS = {"groups": ['parse'], "tests": ['tests/dec']}
 REQUIRED = {**{f"kind:{k}": 20 for k in KINDS}, **{f"repeated:{k}": 8 for k in KINDS if k not in ("LSPW", "LS", "BW", "CM", "INC", "Photos")},
             "repeated-lineshape-setting(must-raise)": 10, "lineshape:several-kinds-one-particle": 10, "photos:absent": 10, "photos:one": 10, "photos:several-last-differs": 5,
-            "photos:three-or-more": 5, "particle:width-default-real": 10, "particle:width-default-via-alias": 10, "particle:explicit-width": 10,
+            "photos:three-or-more": 5, "particle:width-default-real": 10, "particle:width-default-via-alias": 10, "particle:alias-name-reused-across-files": 5, "particle:explicit-width": 10,
             "jetset:int": 10, "jetset:float": 10, "jetset:signed": 5, "pythia:number": 10, "pythia:word": 10, "statements-between-blocks": 20,
             "statements>=5-of-one-kind": 10, "corpus-file": 15}
 ASSUMPTIONS = ["Particle statements without a width are only generated for names whose reference width is in the particle data table",
@@ -53,7 +53,7 @@ def gen_file(ctx):
 
     alias_real = {}
     for _ in range(count("Alias")):
-        a = key("Alias", g.label)
+        a = key("Alias", (lambda: r.choice(["MyRes", "MyA", "Sig0"])) if r.random() < 0.3 else g.label)
         t = r.choice(widthnames) if r.random() < 0.6 else g.name()
         st.append({"k": "Alias", "a": a, "b": t})
         alias_real[a] = t
@@ -122,6 +122,8 @@ def gen_file(ctx):
                 keys["Particle"].append(n)
                 st.append({"k": "Particle", "name": n, "mass": "1.5", "width": None})
                 hits.append("particle:width-default-via-alias")
+                if n in ("MyRes", "MyA", "Sig0"):
+                    hits.append("particle:alias-name-reused-across-files")
         else:
             n = key("Particle", g.name)
             st.append({"k": "Particle", "name": n, "mass": g.numlit(), "width": g.numlit()})
